@@ -112,7 +112,7 @@ fn gen_cases(ctx: &Ctx) -> Vec<Case> {
     for name in DET {
         cases.push(Case { class: name.to_string(), gseed: 0, opts: GenOpts::default(), rps: 0, deltas: true, emap_none: false, regions: 40 });
     }
-    let n = ctx.budget("cases", 300, 6000);
+    let n = ctx.budget("cases", 600, 6000);
     let regions = ctx.budget("regions", 40, 40) as usize;
     let mut rng = Rng::new(ctx.seed, 0xC19, 0);
     for _ in 0..n {
